@@ -381,7 +381,7 @@ func canonicalise(calls []Call, root, cwd string) []Op {
 }
 
 // straceRun runs the CLI under strace; inject is "" or "<syscall>:signal=SIGKILL:when=N".
-func straceRun(bin, cwd string, argv []string, stdin []byte, logPath, inject string, timeout time.Duration) (exit int, stdout, stderr []byte, err error) {
+func straceRun(bin, cwd string, argv []string, stdin []byte, logPath, inject string, timeout time.Duration, env ...string) (exit int, stdout, stderr []byte, err error) {
 	args := []string{"-f", "-o", logPath, "-e", traceExpr()}
 	if inject != "" {
 		args = append(args, "--inject="+inject)
@@ -395,6 +395,9 @@ func straceRun(bin, cwd string, argv []string, stdin []byte, logPath, inject str
 	cmd.Stdin = bytes.NewReader(stdin)
 	var so, se bytes.Buffer
 	cmd.Stdout, cmd.Stderr = &so, &se
+	if len(env) > 0 {
+		cmd.Env = append(os.Environ(), env...)
+	}
 	rerr := cmd.Run()
 	if ctx.Err() != nil {
 		return -1, so.Bytes(), se.Bytes(), fmt.Errorf("timeout")
